@@ -52,6 +52,10 @@ func (tx *Tx) Clone() *Tx {
 func (tx *Tx) SignatureHashForInput(nInput int, prevOutScript []byte, sigHashType uint32) (hashed [32]byte, err error) {
 	tx = tx.Clone()
 
+	// The legacy signature hash never commits to witness data, and the input
+	// surgery below would otherwise leave the witness count out of step.
+	tx.Witnesses = nil
+
 	sigHashNone := sigHashType&0x1f == constants.SigHashNone
 	sigHashSingle := sigHashType&0x1f == constants.SigHashSingle
 	sigHashAnyoneCanPay := sigHashType&constants.SigHashAnyoneCanPay > 0
